@@ -1476,7 +1476,7 @@ func retryO(ndb dbApi.NodeDB, backend, dir string, p *plan, ck *ckpt, cur *state
 			err = ndb.AbortMultipartInsert()
 		case "reopen":
 			ndb.Close()
-			ndb, err = kv.OpenDB(backend, dir, false)
+			ndb, err = openDB(backend, dir)
 		}
 		return nil
 	})
@@ -1486,13 +1486,35 @@ func retryO(ndb dbApi.NodeDB, backend, dir string, p *plan, ck *ckpt, cur *state
 	return ndb, res, err
 }
 
+// openDB opens a database directory in the parent. The parent forks children concurrently; between
+// fork and exec such a child still holds a copy of every descriptor of the parent, including the
+// directory lock of a database the parent has just closed, so an immediate reopen can fail with
+// "Cannot acquire directory lock". That is a property of the harness, not of the database: retry.
+func openDB(backend, dir string) (ndb dbApi.NodeDB, err error) {
+	for try := 0; try < 200; try++ {
+		ndb, err = kv.OpenDB(backend, dir, false)
+		if err == nil || !strings.Contains(err.Error(), "Cannot acquire directory lock") {
+			return ndb, err
+		}
+		time.Sleep(25 * time.Millisecond)
+	}
+	return ndb, err
+}
+
 // census returns the set of live raw keys of a (cleanly closed) database directory, read with plain
 // badger at the highest timestamp. Used for the operations whose whole point is deleting data
 // (Prune, the discard part of Finalize): after the retry exactly the keys of the uninterrupted run
 // must be left, otherwise data that nothing will ever delete again has leaked.
 func census(dir string) (map[string]bool, error) {
 	opts := badger.DefaultOptions(dir).WithReadOnly(true).WithLogger(nil).WithDetectConflicts(false).WithBlockCacheSize(8 << 20)
-	db, err := badger.OpenManaged(opts)
+	var db *badger.DB
+	var err error
+	for try := 0; try < 200; try++ {
+		if db, err = badger.OpenManaged(opts); err == nil || !strings.Contains(err.Error(), "Cannot acquire directory lock") {
+			break
+		}
+		time.Sleep(25 * time.Millisecond)
+	}
 	if err != nil {
 		return nil, err
 	}
@@ -1603,12 +1625,16 @@ func checkCrash(p *plan, ck *ckpt, ref *reference, dir string, i int) (out outco
 	var ndb dbApi.NodeDB
 	if err := protect(func() error {
 		var err error
-		ndb, err = kv.OpenDB(b, dir, false)
+		ndb, err = openDB(b, dir)
 		return err
 	}); err != nil {
 		return out, viol(sig("reopen-fails"), "%s: reopening the database failed: %v", tag, err)
 	}
-	defer func() { ndb.Close() }()
+	defer func() {
+		if ndb != nil {
+			ndb.Close()
+		}
+	}()
 
 	sx, err := snapshot(ndb, p)
 	if err != nil {
@@ -1706,7 +1732,7 @@ func checkCrash(p *plan, ck *ckpt, ref *reference, dir string, i int) (out outco
 		ndb.Close()
 		got, cerr := census(dir)
 		var oerr error
-		if ndb, oerr = kv.OpenDB(b, dir, false); oerr != nil {
+		if ndb, oerr = openDB(b, dir); oerr != nil {
 			return out, viol(sig("reopen-fails"), "%s: second reopen failed: %v", tag, oerr)
 		}
 		if cerr != nil {
@@ -1833,7 +1859,7 @@ func runHistory(sp spec, work string, onlyIndex int, onlySite string, noExclusio
 	}
 
 	// the uninterrupted run: state after O, repeat O on it (nothing may change), suffix
-	rdb, err := kv.OpenDB(sp.Backend, refDir, false)
+	rdb, err := openDB(sp.Backend, refDir)
 	if err != nil {
 		return infra("reopen of the uninterrupted run: %v", err)
 	}
@@ -1867,7 +1893,7 @@ func runHistory(sp spec, work string, onlyIndex int, onlySite string, noExclusio
 		if err != nil {
 			return infra("raw key census of the uninterrupted run: %v", err)
 		}
-		if rdb, err = kv.OpenDB(sp.Backend, refDir, false); err != nil {
+		if rdb, err = openDB(sp.Backend, refDir); err != nil {
 			return infra("reopen of the uninterrupted run: %v", err)
 		}
 	}
@@ -1996,7 +2022,7 @@ func TestC07Crash(t *testing.T) {
 
 	shard, nshards := envInt("VERIF_SHARD", 0), envInt("VERIF_NSHARDS", 1)
 	seed := int64(envInt("VERIF_SEED", 1))
-	perShard := ev.Pick(24, 480)
+	perShard := ev.Pick(16, 320)
 	perShard = envInt("VERIF_C07_HISTORIES", perShard)
 	work := os.Getenv("VERIF_WORK")
 	if work == "" {
@@ -2168,7 +2194,7 @@ func staleRootConsequence(sp spec, work string) string {
 		return ""
 	}
 	defer os.RemoveAll(dir)
-	ndb, err := kv.OpenDB(sp.Backend, dir, false)
+	ndb, err := openDB(sp.Backend, dir)
 	if err != nil {
 		return ""
 	}
